@@ -14,7 +14,7 @@ from common import (Machinery, run_tlc, need_ok, run_cases, scratch,
 from project import project
 
 NCPU_MC = 16
-PROP_OF = {'slice': 'C02', 'apply': 'C03', 'stack': 'C04', 'arith': 'C06',
+PROP_OF = {'interp': 'C17', 'slice': 'C02', 'apply': 'C03', 'stack': 'C04', 'arith': 'C06',
            'eval': 'C06', 'mask': 'C06'}
 
 
@@ -338,6 +338,9 @@ def call(objs, st, tmp):
         if a.get('alias'):
             return f.apply(**kw)
         return f.applyAlongDimensions(**kw)
+    if act == 'interp':
+        return f.interpDimension(a['d'], np.array(a['nxs'], dtype='d'),
+                                 extrapolate=bool(a['ex']))
     if act == 'reopen':
         # the file written to disk and opened again: a disk-backed object
         # (what it presents is C07's business; it is an input of later steps)
@@ -606,10 +609,22 @@ def _gen_step(rnd, sh, src, shadows, focus=None, strict=False):
     dims = list(sh.dims)
     acts = ['copy', 'slice', 'apply', 'stack', 'subset', 'renamevar',
             'renamedim', 'renamedims', 'rmsingle', 'insertdim', 'reorder',
-            'mask', 'arith', 'eval']
+            'mask', 'arith', 'eval', 'interp']
     act = focus if focus and (strict or rnd.random() < 0.7) \
         else rnd.choice(acts)
     st = {'act': act, 'src': src, 'others': [], 'args': {}}
+    if act == 'interp':
+        # interpolation along a dimension that has a 1-D coordinate variable
+        cds = [d for d in sh.dims if d in sh.vars and sh.vars[d] == (d,)
+               and sh.dims[d] >= 2]
+        if not cds:
+            raise ValueError('no coordinate variable')
+        d = rnd.choice(cds)
+        st['args'] = {'d': d, 'ex': rnd.random() < 0.5,
+                      'nxs': [rnd.choice([0, 2, 4, 5, 8, 10, 12, 15, 16, 20,
+                                          25, 30, 40, 45])
+                              for _ in range(rnd.randint(1, 4))]}
+        return st
     a = st['args']
     if act == 'slice':
         nd = rnd.randint(1, min(3, len(dims)))
